@@ -56,7 +56,8 @@ def worker(k):
             i, d = q.get_nowait()
         except queue.Empty:
             break
-        own = re.search(r"/(C\d\d)", d[len("/verif/"):] if d.startswith("/verif/") else "/" + d).group(1)
+        mo = re.search(r"/(C\d\d)", d[len("/verif/"):] if d.startswith("/verif/") else "/" + d)
+        own = mo.group(1) if mo else "C00"      # property-preserving rewrites (seeded_pending/harmless/H*) have no own property
         patch = os.path.join(d, "patch.ported.diff")
         if not os.path.exists(patch):
             patch = os.path.join(d, "patch.diff")
